@@ -689,3 +689,144 @@ Definition ex_request (method path : bytes) (headers : list header) : areq :=
   {| aq_request := {| rq_method := method; rq_query := lit "a=1"; rq_headers := headers;
                       rq_client := None; rq_body := [] |};
      aq_root := lit "/r"; aq_path := path; aq_scheme := lit "http"; aq_server := (lit "testserver", 80%N) |}.
+
+(* ---------- the Location of the redirect ---------- *)
+
+Lemma replace_slash_text u u' :
+  C18.Model.replace u (slash_kwargs u) = C18.Model.Ok u' ->
+  C18.Model.ustr u' =
+  C18.Model.unsplit {| C18.Model.scheme := []; C18.Model.netloc := C18.Model.netloc (C18.Model.ucomps u);
+                       C18.Model.path := C18.Model.path (C18.Model.ucomps u) ++ [47%N];
+                       C18.Model.query := C18.Model.query (C18.Model.ucomps u);
+                       C18.Model.fragment := C18.Model.fragment (C18.Model.ucomps u) |}.
+Proof.
+  unfold C18.Model.replace, C18.Model.new_netloc, slash_kwargs.
+  cbn [C18.Model.k_username C18.Model.k_password C18.Model.k_hostname C18.Model.k_port C18.Model.k_scheme C18.Model.k_path
+       C18.Model.k_query C18.Model.k_fragment C18.Model.is_some orb C18.Model.bind C18.Model.dflt].
+  unfold C18.Model.mk_url. destruct (C18.Model.urlsplit _) as [c'|e']; cbn [C18.Model.bind]; [|discriminate].
+  intro H. injection H as <-. reflexivity.
+Qed.
+
+Lemma unsplit_slash (nl pth q : bytes) : nl <> [] -> C18.Proofs.path_ok pth = true ->
+  C18.Model.unsplit {| C18.Model.scheme := []; C18.Model.netloc := nl; C18.Model.path := pth ++ [47%N];
+                       C18.Model.query := q; C18.Model.fragment := [] |} =
+  lit "//" ++ nl ++ (pth ++ [47%N]) ++ C18.Proofs.qpart q.
+Proof.
+  intros Hnl Hp. unfold C18.Model.unsplit, C18.Proofs.qpart.
+  cbn [C18.Model.scheme C18.Model.netloc C18.Model.path C18.Model.query C18.Model.fragment C18.Model.is_nil].
+  destruct nl as [|n0 nl]; [contradiction Hnl; reflexivity|]. cbn [C18.Model.is_nil negb orb].
+  assert (E : match pth ++ [47%N] with
+              | [] => []
+              | c0 :: _ => if (c0 =? 47)%N then pth ++ [47%N] else 47%N :: pth ++ [47%N]
+              end = pth ++ [47%N]).
+  { destruct pth as [|c0 r]; [reflexivity|]. cbn [app]. cbn [C18.Proofs.path_ok] in Hp.
+    apply andb_true_iff in Hp as [Hc _]. rewrite Hc. reflexivity. }
+  rewrite E. change (lit "//") with [47%N; 47%N].
+  destruct q as [|q0 q]; cbn [C18.Model.is_nil]; rewrite ?app_nil_r, <- ?app_assoc; reflexivity.
+Qed.
+
+Lemma host_text_nonempty src d : C18.Proofs.source_ok src = true ->
+  C18.Proofs.host_text (C18.Proofs.source_host src) ++ C18.Proofs.port_text (C18.Proofs.source_port d src) <> [].
+Proof.
+  intros Hs. pose proof (C18.Proofs.source_host_ok src Hs) as Hh.
+  destruct (C18.Proofs.source_host src) as [h|a]; cbn [C18.Proofs.host_text C18.Proofs.host_ok] in *.
+  - destruct h; [discriminate Hh|discriminate].
+  - discriminate.
+Qed.
+
+(* urlsplit accepts the scheme-less text urlunsplit produced (C18's urlsplit_text, without a scheme) *)
+Lemma urlsplit_noscheme (nl pth q : bytes) :
+  forallb C18.Proofs.nl_char_ok nl = true -> C18.Model.netloc_check nl = true ->
+  C18.Proofs.path_ok pth = true -> pth <> [] -> C18.Proofs.query_ok q = true ->
+  C18.Model.urlsplit (47%N :: 47%N :: nl ++ pth ++ C18.Proofs.qpart q) =
+  C18.Model.Ok {| C18.Model.scheme := []; C18.Model.netloc := nl; C18.Model.path := pth;
+                  C18.Model.query := q; C18.Model.fragment := [] |}.
+Proof.
+  intros Hnl Hck Hp Hne Hq.
+  destruct (C18.Proofs.path_ok_inv _ Hp) as (Hp63 & Hp35 & Hpsafe & Hpform).
+  destruct (C18.Proofs.query_ok_inv _ Hq) as (Hq35 & Hqsafe).
+  assert (Hnld : forallb (fun x => negb (C18.Model.is_delim x)) nl = true).
+  { revert Hnl. apply C18.Proofs.forallb_imp. intros ch Hc. apply andb_true_iff in Hc. tauto. }
+  assert (Hnls : forallb (fun x => negb (C18.Model.unsafe x)) nl = true).
+  { revert Hnl. apply C18.Proofs.forallb_imp. intros ch Hc. apply andb_true_iff in Hc. tauto. }
+  assert (Hqp : forallb (fun x => negb (C18.Model.unsafe x)) (C18.Proofs.qpart q) = true).
+  { unfold C18.Proofs.qpart. destruct (C18.Model.is_nil q); [reflexivity|]. cbn [forallb]. rewrite Hqsafe. reflexivity. }
+  set (rest := nl ++ pth ++ C18.Proofs.qpart q).
+  unfold C18.Model.urlsplit.
+  assert (E1 : C18.Model.lstrip_c0 (47%N :: 47%N :: rest) = 47%N :: 47%N :: rest) by reflexivity.
+  rewrite E1.
+  assert (E2 : C18.Model.remove_unsafe (47%N :: 47%N :: rest) = 47%N :: 47%N :: rest).
+  { unfold C18.Model.remove_unsafe. apply C18.Proofs.filter_all. cbn [forallb].
+    change (negb (C18.Model.unsafe 47)) with true. cbn [andb]. unfold rest.
+    repeat apply C18.Proofs.forallb_app_true; assumption. }
+  rewrite E2.
+  assert (E3 : C18.Model.split_scheme (47%N :: 47%N :: rest) = ([], 47%N :: 47%N :: rest)).
+  { unfold C18.Model.split_scheme. cbn [C18.Model.partition]. change (47 =? 58)%N with false. cbv iota.
+    destruct (C18.Model.partition 58 rest) as [[a f] b]. destruct f; reflexivity. }
+  rewrite E3. cbv iota.
+  assert (Hsd : C18.Proofs.starts_delim (pth ++ C18.Proofs.qpart q) = true).
+  { destruct Hpform as [-> | [r' ->]]; [contradiction Hne; reflexivity|reflexivity]. }
+  unfold rest. rewrite (C18.Proofs.span_netloc_app nl _ Hnld Hsd). rewrite Hck. cbn [C18.Model.bind fst snd].
+  assert (H35 : C18.Model.mem 35 (pth ++ C18.Proofs.qpart q) = false).
+  { rewrite C18.Proofs.mem_app, Hp35. unfold C18.Proofs.qpart. destruct (C18.Model.is_nil q); [reflexivity|].
+    rewrite C18.Proofs.mem_cons, Hq35. reflexivity. }
+  rewrite (C18.Proofs.partition_notin 35 _ H35).
+  assert (E5 : C18.Model.partition 63 (pth ++ C18.Proofs.qpart q) = (pth, negb (C18.Model.is_nil q), q)).
+  { unfold C18.Proofs.qpart. destruct q as [|q0 q']; cbn [C18.Model.is_nil negb].
+    - rewrite app_nil_r. apply C18.Proofs.partition_notin. exact Hp63.
+    - apply C18.Proofs.partition_app. exact Hp63. }
+  rewrite E5. reflexivity.
+Qed.
+
+Lemma path_ok_slash (s : bytes) : C18.Proofs.path_ok s = true -> C18.Proofs.path_ok (s ++ [47%N]) = true.
+Proof.
+  destruct s as [|ch r]; [reflexivity|]. cbn [app C18.Proofs.path_ok]. intro H.
+  apply andb_true_iff in H as [H1 H2]. rewrite H1. cbn [andb].
+  change (ch :: r ++ [47%N]) with ((ch :: r) ++ [47%N]). rewrite forallb_app, H2. reflexivity.
+Qed.
+
+Theorem static_redirect_location_proof (c : scfg) (e : senv) (rq : areq) (s : state) (p q : bytes)
+    (sch : bytes) (d : N) (src : C18.Proofs.source) :
+  let root := C09.Model.get (C09.Model.root (s_req s)) in
+  C09.Model.lifespan (s_req s) = false -> C09.Model.path (s_req s) = Some p ->
+  (exists loc, fst (C07.Model.pages_call (se_fs e) (se_cwd e) (sc_dir c) p) = C07.Model.Redirect loc) ->
+  utf8_decode (rq_query (aq_request rq)) = Some q ->
+  url_request rq (hget (lit "host") (scope_headers (aq_request rq))) root p q = C18.Proofs.request_of sch src root p q ->
+  C18.Model.default_port sch = Some d -> C18.Proofs.source_ok src = true ->
+  C18.Proofs.path_ok (root ++ p) = true -> C18.Proofs.query_ok q = true ->
+  let location := iri_to_uri (lit "//" ++ C18.Proofs.host_text (C18.Proofs.source_host src)
+                                ++ C18.Proofs.port_text (C18.Proofs.source_port d src)
+                                ++ (root ++ p ++ [47%N]) ++ C18.Proofs.qpart q) in
+  static_asgi C07.Model.KPages c e rq s = OResp 307 [(lit "location", location); (lit "content-length", lit "0")] [].
+Proof.
+  intros root Hl Hp [loc Hr] Hq Hreq Hd Hs Hpo Hqo location.
+  unfold static_asgi. rewrite Hl, Hp. destruct (asgi_cond rq) as [inm ims].
+  unfold C07.Model.asgi_call. cbn [C07.Model.app_call]. rewrite Hr.
+  unfold asgi_url, with_query. rewrite Hq. fold root. rewrite Hreq.
+  destruct (C18.Properties.url_components sch d src root p q Hd Hs Hpo Hqo)
+    as (u & Hu & _ & _ & _ & Hpath & Hquery & Hfrag & Hnet & _).
+  cbv zeta in Hu. rewrite Hu. unfold redirect_answer. cbn [C18.Model.bind].
+  set (nl := C18.Proofs.host_text (C18.Proofs.source_host src) ++ C18.Proofs.port_text (C18.Proofs.source_port d src)) in *.
+  (* replace() succeeds: urlunsplit of the new components splits again *)
+  assert (Hnl1 : forallb C18.Proofs.nl_char_ok nl = true).
+  { exact (C18.Proofs.netloc_chars_ok None None (C18.Proofs.source_host src) (C18.Proofs.source_port d src)
+             eq_refl eq_refl (C18.Proofs.source_host_ok src Hs)). }
+  assert (Hnl2 : C18.Model.netloc_check nl = true).
+  { exact (C18.Proofs.netloc_check_ok None None (C18.Proofs.source_host src) (C18.Proofs.source_port d src)
+             eq_refl eq_refl (C18.Proofs.source_host_ok src Hs)). }
+  assert (Hne : nl <> []) by (apply host_text_nonempty; exact Hs).
+  assert (Hrep : C18.Model.replace u (slash_kwargs u) =
+                 C18.Model.Ok {| C18.Model.ustr := lit "//" ++ nl ++ ((root ++ p) ++ [47%N]) ++ C18.Proofs.qpart q;
+                                 C18.Model.ucomps := {| C18.Model.scheme := []; C18.Model.netloc := nl;
+                                                        C18.Model.path := (root ++ p) ++ [47%N];
+                                                        C18.Model.query := q; C18.Model.fragment := [] |} |}).
+  { unfold C18.Model.replace, C18.Model.new_netloc, slash_kwargs.
+    cbn [C18.Model.k_username C18.Model.k_password C18.Model.k_hostname C18.Model.k_port C18.Model.k_scheme C18.Model.k_path
+         C18.Model.k_query C18.Model.k_fragment C18.Model.is_some orb C18.Model.bind C18.Model.dflt].
+    rewrite Hpath, Hquery, Hfrag, Hnet. rewrite (unsplit_slash nl (root ++ p) q Hne Hpo).
+    unfold C18.Model.mk_url. change (lit "//") with [47%N; 47%N]. cbn [app].
+    rewrite (urlsplit_noscheme nl ((root ++ p) ++ [47%N]) q Hnl1 Hnl2 (path_ok_slash _ Hpo)); [reflexivity| |exact Hqo].
+    intro H. apply app_eq_nil in H as [_ H]. discriminate H. }
+  rewrite Hrep. destruct (asgi_render_facts c) as [_ H2]. rewrite H2. cbn [obs_of C18.Model.ustr].
+  unfold location, nl. rewrite <- !app_assoc. reflexivity.
+Qed.
